@@ -13,6 +13,7 @@ import (
 	"context"
 	"fmt"
 	"os"
+	"runtime"
 	"strconv"
 	"strings"
 	"sync"
@@ -32,14 +33,16 @@ type Act struct {
 
 func (a Act) String() string {
 	switch a.Op {
-	case "value", "observe", "chans":
+	case "value", "observe", "chans", "go":
 		return a.Op
 	}
 	return a.Op + " " + strconv.Itoa(a.I)
 }
 
 // Scenario: Kind "watch" (ops set v / value / observe / chans), "future" (Flags per waiter "p"/"c";
-// ops call j / cancel j / fill v), "lazy" (ops call v: v = what f would return if it ran now).
+// ops call j / cancel j / fill v), "lazy" (ops call v / callp v: one call run to completion, v = what f
+// would return / panic with if it ran now; go / ret v / pan v: concurrent callers of a gated f, see
+// lazy_test.go).
 type Scenario struct {
 	Kind  string   `json:"kind"`
 	Flags []string `json:"flags,omitempty"`
@@ -383,38 +386,13 @@ func runFuture(sc Scenario) (out Outcome) {
 	return out
 }
 
-// ---------------------------------------------------------------------------------------------
-// Lazy (sequential part; concurrent first calls are in TestStress)
-
-func runLazy(sc Scenario) (out Outcome) {
-	runs := 0
-	next := 0
-	l := xsync.Lazy(func() int { runs++; return next })
-	var first *int
-	for step, a := range sc.Acts {
-		if a.Op != "call" {
-			continue
-		}
-		next = a.I
-		var r int
-		p, _ := vlib.Try(func() { r = l() })
-		o := fmt.Sprintf("%d runs=%d", r, runs)
-		if p {
-			o = "panic"
-		}
-		out.Lines = append(out.Lines, a.String())
-		out.Obs = append(out.Obs, o)
-		if first == nil {
-			first = box(r)
-		}
-		if out.Verdict == nil && (p || runs != 1 || r != *first) {
-			out.Verdict = &Verdict{Kind: "lazy-not-once", What: fmt.Sprintf("call %d returned %d with f run %d time(s); the first call returned %d", step, r, runs, *first)}
-		}
-	}
-	return out
-}
-
 func runInBubble(t *testing.T, sc Scenario) (out Outcome) {
+	if sc.Kind == "lazy" { // real threads: callers parked on the mutex of a sync.Once are not durably blocked
+		if p, pv := vlib.Try(func() { out = runLazy(sc) }); p {
+			out.Bug = fmt.Sprintf("lazy scenario panicked: %v", pv)
+		}
+		return out
+	}
 	ok := false
 	p, pv := vlib.Try(func() {
 		synctest.Test(t, func(t *testing.T) {
@@ -423,8 +401,6 @@ func runInBubble(t *testing.T, sc Scenario) (out Outcome) {
 				out = runWatch(sc)
 			case "future":
 				out = runFuture(sc)
-			case "lazy":
-				out = runLazy(sc)
 			}
 			ok = true
 		})
@@ -463,6 +439,8 @@ func conform(m *vlib.Model, kind string, out Outcome) (string, error) {
 			if !strings.HasPrefix(mo[i], "ok") {
 				return fmt.Sprintf("line %d %q: model answers %q", i, out.Lines[i], mo[i]), nil
 			}
+		} else if out.Obs[i] == "" { // lazy: a caller racing towards a held Once — state not observed
+			continue
 		} else if mo[i] != out.Obs[i] {
 			return fmt.Sprintf("line %d %q: impl %q, model %q", i, out.Lines[i], out.Obs[i], mo[i]), nil
 		}
@@ -537,11 +515,7 @@ func genScenario(r *vlib.Rand, res *vlib.Result) Scenario {
 		return sc
 	}
 	res.Count("kind-lazy")
-	sc := Scenario{Kind: "lazy"}
-	for i := r.Range(1, 5); i > 0; i-- {
-		sc.Acts = append(sc.Acts, Act{Op: "call", I: r.Range(1, 9)})
-	}
-	return sc
+	return genLazy(r, res)
 }
 
 func nontrivial(sc Scenario) bool {
@@ -567,7 +541,7 @@ func nontrivial(sc Scenario) bool {
 		}
 		return calls >= 2 && fills >= 1
 	}
-	return len(sc.Acts) >= 2
+	return lazyCalls(sc) >= 2
 }
 
 type checker struct {
@@ -580,6 +554,9 @@ func (c *checker) check(sc Scenario, reps int) {
 	for j := 0; j < reps; j++ {
 		out := runInBubble(c.t, sc)
 		if out.Bug != "" {
+			if v := out.Verdict; v != nil { // e.g. callers of a Lazy parked for good: the clause was judged before the bubble was left
+				c.res.Fail(vlib.Failure{Source: "monitor", Kind: v.Kind, Params: v.Params, What: v.What, Case: sc})
+			}
 			c.res.Fail(vlib.Failure{Source: "correspondence", Kind: "harness-bubble", What: out.Bug, Case: sc})
 			return
 		}
@@ -593,8 +570,8 @@ func (c *checker) check(sc Scenario, reps int) {
 			small := vlib.Shrink(sc.Acts, func(acts []Act) bool {
 				for r := 0; r < 3; r++ {
 					o := runInBubble(c.t, Scenario{Kind: sc.Kind, Flags: sc.Flags, Acts: acts})
-					if o.Verdict != nil && o.Verdict.Kind == v.Kind {
-						return true
+					if o.Verdict != nil && o.Verdict.Kind == v.Kind && (sc.Kind != "lazy" || fmt.Sprint(o.Verdict.Params) == fmt.Sprint(v.Params)) {
+						return true // lazy: the parameters say which calls deviate (later ones / concurrent first calls): shrinking keeps the class
 					}
 				}
 				return false
@@ -602,7 +579,7 @@ func (c *checker) check(sc Scenario, reps int) {
 			ssc := Scenario{Kind: sc.Kind, Flags: sc.Flags, Acts: small}
 			vv := v
 			for r := 0; r < 5; r++ {
-				if o := runInBubble(c.t, ssc); o.Verdict != nil && o.Verdict.Kind == v.Kind {
+				if o := runInBubble(c.t, ssc); o.Verdict != nil && o.Verdict.Kind == v.Kind && (sc.Kind != "lazy" || fmt.Sprint(o.Verdict.Params) == fmt.Sprint(v.Params)) {
 					vv = o.Verdict
 					break
 				}
@@ -650,7 +627,7 @@ func startModels(env vlib.Env, res *vlib.Result) *models {
 func TestVerif(t *testing.T) {
 	env := vlib.GetEnv()
 	res := vlib.NewResult("C18", "synctest scenarios: Watchable (Set / Value / observer loops / channel states, incl. Value and observers before the first Set), "+
-		"Future (Wait and WaitContext callers before and after Fill, context expiry before and after Fill, second Fill), Lazy (repeated calls); "+
+		"Future (Wait and WaitContext callers before and after Fill, context expiry before and after Fill, second Fill), Lazy (repeated calls; callers parked behind a gated run of f and later callers; runs of f that return and runs that panic); "+
 		"non-trivial: Watchable >= 2 Sets and >= 2 reads, Future >= 2 callers and a Fill, Lazy >= 2 calls; distinct = different action sequence")
 	ms := startModels(env, res)
 	defer ms.watch.Close()
@@ -666,7 +643,11 @@ func TestVerif(t *testing.T) {
 		}
 		out := runInBubble(t, sc)
 		for i := range out.Lines {
-			fmt.Printf("  %-28s -> %s\n", out.Lines[i], out.Obs[i])
+			o := out.Obs[i]
+			if o == "" {
+				o = "(state not observed: the caller is on its way to a Once that is held)"
+			}
+			fmt.Printf("  %-28s -> %s\n", out.Lines[i], o)
 		}
 		if out.Verdict != nil {
 			fmt.Printf("monitor: %s: %s\n", out.Verdict.Kind, out.Verdict.What)
@@ -705,6 +686,10 @@ func TestVerif(t *testing.T) {
 		}
 		res.Count("corpus")
 		c.check(sc, 2)
+	}
+	for _, sc := range directedLazy() {
+		res.Count("lazy-directed")
+		c.check(sc, 1)
 	}
 	r := vlib.NewRand(env.Seed)
 	deadline := time.Now().Add(time.Duration(env.BudgetMs) * time.Millisecond / 2)
@@ -891,6 +876,38 @@ func TestStress(t *testing.T) {
 			for i := range got {
 				if got[i] != 7 || runs.Load() != 1 {
 					fail("lazy-not-once", fmt.Sprintf("caller %d got %d, f ran %d time(s)", i, got[i], runs.Load()))
+				}
+			}
+			res.Evaluations++
+		}
+		// --- Lazy: concurrent first calls of a Lazy whose f panics (sync.OnceValue: "If f panics, the
+		// returned function will panic with the same value on every call"): every caller must end with
+		// the outcome of the single run, none with a value f did not produce
+		{
+			var runs atomic.Int32
+			l := xsync.Lazy(func() int { runs.Add(1); runtime.Gosched(); panic(lazyPanic(9)) })
+			ng := r.Range(2, 8)
+			var wg sync.WaitGroup
+			got := make([]string, ng)
+			for i := 0; i < ng; i++ {
+				wg.Add(1)
+				go func() {
+					defer wg.Done()
+					var v int
+					p, pv := vlib.Try(func() { v = l() })
+					if p {
+						got[i] = fmt.Sprintf("panic %T %v", pv, pv)
+					} else {
+						got[i] = fmt.Sprintf("returned %d", v)
+					}
+				}()
+			}
+			wg.Wait()
+			for i := range got {
+				if got[i] != "panic c18.lazyPanic 9" {
+					fail("lazy-result-differs", fmt.Sprintf("caller %d of %d concurrent first calls: %s, but the single run of f panicked with 9 (f ran %d time(s))", i, ng, got[i], runs.Load()))
+				} else if runs.Load() != 1 {
+					fail("lazy-not-once", fmt.Sprintf("f ran %d time(s) for %d concurrent first calls", runs.Load(), ng))
 				}
 			}
 			res.Evaluations++
